@@ -55,10 +55,20 @@ def _populations(rng, tier):
                 "orders); random n<=7, m<=3, infeasibility markers")
 def sorting(rng, tier):
     s = _selector()
+    k = 0
     for costs in _populations(rng, tier):
         pop = [_mk(c) for c in costs]
         yield {"call": lambda self, individuals: self.fast_nondominated_sorting(individuals), "args": {"self": s, "individuals": pop},
                "extra": _EXTRA, "label": repr(costs)}
+        k += 1
+        if len(pop) >= 2 and k % 7 == 0:
+            # the SAME selector sorts a snapshot of that population next: same ids, different objects, different order
+            # (nothing the first call left behind may leak into the second)
+            import copy
+            snap = copy.deepcopy(pop)
+            rng.shuffle(snap)
+            yield {"call": lambda self, individuals: self.fast_nondominated_sorting(individuals), "args": {"self": s, "individuals": snap},
+                   "extra": _EXTRA, "label": "snapshot of " + repr([x.costs_signed for x in snap])}
 
 
 scenario("artap.operators:Selector.fast_nondominated_sorting#front1", bound="as fast_nondominated_sorting (replay search for the proved clauses)")(sorting)
@@ -92,7 +102,7 @@ def _ranked_pool(rng, n, dup=True):
     for _ in range(n):
         if dup and pool and rng.random() < 0.3:
             src = rng.choice(pool)
-            v = [c + rng.choice([0.0, 0.0, 5e-11]) for c in src.vector]
+            v = [c + rng.choice([0.0, 0.0, 5e-11, 1e-8]) for c in src.vector]      # equal, within tolerance, or different by 1e-8
         else:
             v = [float(rng.randint(0, 3)), float(rng.randint(0, 3))]
         x = _mk([v[0], v[1], 0], list(v))
